@@ -10,9 +10,15 @@
 //   xdump [nobop]           full observation + per block D(irty)/F(inal) marks + roots; `nobop` never
 //                           dereferences block-of-proof back pointers (they dangle after ALT finalization)
 //   dirty                   ids of the dirty blocks per tree  (what the next save will write)
-//   final                   "<root> <highest finalized block on the active chain>" of ALT, VBK
+//   adump                   the ALT part of xdump only (input/expected output of the model correspondence)
+//   final                   "<root> <highest finalized block on the active chain>" of ALT, VBK, BTC + block counts
 //   pair <N> <op> <a>       C09 twin step, see pairOp()
 //   paircheck <N>           C09 state comparison of the retained, non-outdated part
+//   dangling                known finding dangling-endorsement-backpointers: back pointers (endorsedBy / block of
+//                           proof) that point to no live containing endorsement; pointers are only compared
+//   mpsubmit ctx=.. atvs=.. vtbs=..   hand payloads to the instance's mempool;  genpop  MemPool::generatePopData()
+// A failed VBK_ASSERT (std::terminate) is answered "ABORT in=<instance>", the session is abandoned and every line
+// up to the next `begin` is answered "DEAD" (see main()).
 #include "world.hpp"
 #include <unistd.h>
 
@@ -300,8 +306,23 @@ struct StoreSession : public vw::Session {
   //       containing endorsements; endorsedBy restricted to endorsements whose containing block F still has
   //  VBK/BTC: blocks of F: status, refcount/refs, VTB ids, containing endorsements, number of block-of-proof
   //       back pointers (not dereferenced: they dangle in F once the containing ALT block is deallocated)
+  // preserved window (property text: "every block within the preserved window ... remains available"): the root of a
+  // finalizing tree is never above max(bootstrap, final - preserveBlocksBehindFinal)
+  template <typename Tree>
+  void windowCheck(const Tree& t, int preserve, const char* name) {
+    auto* f = finalOf(t);
+    if (f == nullptr) return;
+    int root = t.getRoot().getHeight();
+    int want = std::max(0, (int)f->getHeight() - preserve);
+    if (root > want && !t.getRoot().hasFlags(BLOCK_BOOTSTRAP))
+      vh::oracle_fail(curId, std::string("preserved-window-violated tree=") + name + " root=" + std::to_string(root) +
+                                 " final=" + std::to_string(f->getHeight()) + " preserve=" + std::to_string(preserve));
+  }
+
   std::string pairCheck(Instance& F, Instance& N) {
     std::string fin = altFinalId(F);
+    windowCheck(F.tree, (int)params->alt.preserveBlocksBehindFinal(), "ALT");
+    windowCheck(F.tree.vbk(), (int)params->vbk.preserveBlocksBehindFinal(), "VBK");
     int n = 0, bad = 0;
     std::string first;
     auto cmpl = [&](const std::string& lf, const std::string& ln) {
